@@ -1118,6 +1118,28 @@ Section ShoeboxTheorems.
     exact (room_cells rm _ _ _ (sb_axis_walls_by x0 x1 y0 y1 z0 z1 rm Hw Hn Hx Hy Hz Hp Hpx Hpy Hpz)).
   Qed.
 
+  (** the index range of the theorems below is not empty: every wall carries a patch *)
+  Lemma shoebox_np_ge_6 (rm : @room T) (x0 x1 y0 y1 z0 z1 : T) :
+    is_shoebox rm x0 x1 y0 y1 z0 z1 -> (6 <= rm_np rm)%nat.
+  Proof.
+    intros (Hw & Hn & _ & Hx & Hy & Hz & Hp & Hpx & Hpy & Hpz).
+    assert (Hpos : forall f c, (f < 3)%nat ->
+              (1 <= total_number_of_patches (sb_quad x0 x1 y0 y1 z0 z1 f c) (rm_patch_size rm))%nat).
+    { intros f c Hf.
+      destruct (stmt_count _ _ f c (sb_wall_ok x0 x1 y0 y1 z0 z1 Hx Hy Hz _ Hp Hpx Hpy Hpz f c Hf))
+        as (_ & _ & Nx & Ny & _ & ->).
+      exact (Nat.mul_le_mono 1 _ 1 _ Nx Ny). }
+    unfold rm_np, rm_patch_pts, rm_processed. rewrite map_length, process_points_length, Hw.
+    change (sb_walls x0 x1 y0 y1 z0 z1)
+      with [sb_quad x0 x1 y0 y1 z0 z1 1 y0; sb_quad x0 x1 y0 y1 z0 z1 1 y1;
+            sb_quad x0 x1 y0 y1 z0 z1 2 z0; sb_quad x0 x1 y0 y1 z0 z1 2 z1;
+            sb_quad x0 x1 y0 y1 z0 z1 0 x0; sb_quad x0 x1 y0 y1 z0 z1 0 x1].
+    unfold sumn. cbn [map fold_left].
+    pose proof (Hpos 1%nat y0 ltac:(lia)). pose proof (Hpos 1%nat y1 ltac:(lia)).
+    pose proof (Hpos 2%nat z0 ltac:(lia)). pose proof (Hpos 2%nat z1 ltac:(lia)).
+    pose proof (Hpos 0%nat x0 ltac:(lia)). pose proof (Hpos 0%nat x1 ltac:(lia)). lia.
+  Qed.
+
   (** GENERAL POSITION is a theorem for shoebox rooms: the hypothesis of
       [room_visibility_geometric] holds for every pair of patches and every patch rectangle *)
   Theorem shoebox_general_position (rm : @room T) (x0 x1 y0 y1 z0 z1 m : T) :
